@@ -4,10 +4,13 @@ import (
 	"fmt"
 	"go/token"
 	"go/types"
+	"sort"
+	"strings"
 
 	"golang.org/x/tools/go/ssa"
 
 	"verif/sa/core"
+	"verif/sa/spec"
 )
 
 // frameInv establishes (as checked obligations under `rule`) the cross-function
@@ -410,4 +413,29 @@ func retLenSummary(f *ssa.Function) (core.RetLen, bool) {
 		return core.RetLen{}, false
 	}
 	return *out, true
+}
+
+// wireCodes: the protocol's code points (frame types, checksum types, error
+// codes, response code, fragment flag, version) equal the specification's.
+// groups selects the vocabularies ("frame", "checksum", "error") a property
+// cares about.
+func wireCodes(p *core.Prog, r *core.Report, rule string, groups ...string) {
+	want := map[string]bool{}
+	for _, g := range groups {
+		want[g] = true
+	}
+	var names []string
+	for n := range spec.WireCodes {
+		for prefix, g := range spec.WireCodeGroups {
+			if strings.HasPrefix(n, prefix) && want[g] {
+				names = append(names, n)
+			}
+		}
+	}
+	sort.Strings(names)
+	for _, n := range names {
+		got, ok := constVal(p, n)
+		r.Check(ok && got == spec.WireCodes[n], rule, "constants", fmt.Sprintf("%s = %#02x (protocol specification)", n, spec.WireCodes[n]), "-",
+			"the wire value equals the specified code point", fmt.Sprintf("constant is %#02x (resolved=%v), the protocol specifies %#02x: the bytes on the wire mean something else to every other implementation", got, ok, spec.WireCodes[n]))
+	}
 }
